@@ -16,6 +16,22 @@ The repo's interpreter (/venv/bin/python) has no numpy, so the implementation si
                  None, 0, '1K'-style strings and the default; loky, multiprocessing and threading; numeric, plain-object
                  and structured / sub-array dtypes holding objects: the values seen inside the tasks (never an
                  exception); which arrays travel as memmaps (model: `forward`)
+  histories    : call HISTORIES on one Parallel object (managed `with Parallel(...)` / unmanaged, loky / multiprocessing /
+                 threading): array objects reused unchanged, mutated in place, rebound to equal copies, dropped and
+                 replaced (id() reuse), kept views of a mutated base, fresh views, caller memmaps, arrays below the
+                 threshold, object arrays, random histories; oracle: every task sees the values its argument has at
+                 dispatch time (F57, known: the same object mutated in place between calls of a managed Parallel);
+                 model: `history` (the identity-keyed temporary dumps, `runHistory`). With VERIF_C19_VANISH=1 also the
+                 forced "lagging resource tracker" schedule (a finding on the unchanged tree, reported).
+  modes        : `Parallel(mmap_mode=…)` for every documented value {None, r, r+, w+, c} x max_nbytes {None, small} x
+                 loky / multiprocessing: values, what a task's write does (numpy.memmap semantics), what the caller
+                 sees afterwards; model `forward` with `mmap_mode is None` (repair F58; the (None, small) cases run
+                 only with VERIF_C19_F58=1 until the repair is in /repo)
+  threads      : two threads inside joblib.load / joblib.dump at once, the overlap FORCED by parking thread A after the
+                 k-th return from any read/readinto/write/(de)compress below the call while thread B runs a whole
+                 load/dump (every k, every compressor); oracle: each gets / writes its own array
+  dump<i>      : also `joblib.load(<open file object>, mmap_mode=…)` after the path of the object was replaced by a new
+                 version or renamed away: the contents of the file the OBJECT designates
 This module only pipes the requests to the Lean driver, diffs, and folds the counters.
 """
 
@@ -44,6 +60,12 @@ REQUIRED_THEOREMS = [
     "C19.order_choice",
     "C19.object_arrays_are_never_memmapped",
     "C19.forward_decision",
+    "C19.mmap_mode_none_disables_memmapping",
+    "C19.prefix_mmap_mode_none_counterexample",
+    "C19.history_stale_counterexample",
+    "C19.history_faithful_partial",
+    "C19.fresh_context_is_faithful",
+    "C19.new_object_is_faithful",
     "C19.reduce_offset",
     "C19.reduce_strided_faithful",
     "C19.reduce_contiguous_faithful",
@@ -63,6 +85,11 @@ TRUSTED_EXTRA = [
     "interpretation fixed in DESIGN 6/C19: with ensure_native_byte_order in effect (default 'auto', no mmap) dtype identical "
     "up to byte order and identical values; strictly identical dtype/bytes with ensure_native_byte_order=False and for "
     "mmap loads; identity of an array referenced twice in a container is NOT demanded (joblib writes it twice)",
+    "threads of one process are scheduled by the harness through sys.setprofile (CPython delivers the c_return/return event "
+    "in the running thread before it continues): modelled-not-verified; thread interleavings are not in the Lean model",
+    "F57 (known): the temporary dump of an argument is keyed by the identity of the array object and written once per "
+    "temp folder (C19.history_stale_counterexample / history_faithful_partial); F58: the Lean model has the repaired "
+    "`mmap_mode is not None` condition (fixes/F58-…diff), the cases that distinguish it run with VERIF_C19_F58=1",
     "known findings F16 and F27 (see known_findings.json) are reproduced on every run (F27: read_inverts_write_partial / "
     "itemsize_zero_counterexample); F24-F26 are fixed in /repo (b514cf6, 5cddabe): the model is the repaired code, the "
     "witnesses against the pre-fix code are the C19.prefix_* theorems over the …PreFix definitions; on a tree without the "
@@ -127,7 +154,9 @@ def _fold(ctx, res, all_recs):
 RULE = ("dump/load: one evaluation = one (array spec, nesting, compress argument, protocol, target) dumped by the real code, "
         "parsed independently and loaded every way; distinct by that tuple (array spec = dtype x shape x layout x seed; "
         "all are non-trivial: they contain at least one array); worker views: distinct (memmap dtype/shape/order/offset, "
-        "view expression); parallel: distinct (array spec, backend, max_nbytes)")
+        "view expression); parallel: distinct (array spec, backend, max_nbytes); histories: distinct (steps, backend, managed) — "
+        "all contain at least one call with an array; modes: distinct (backend, mmap_mode, max_nbytes); threads: distinct "
+        "(compressor, operation pair, arrays, target), each evaluated at every forced overlap point")
 
 
 def _tables_check(ctx, res, tables):
@@ -152,7 +181,7 @@ def _explore(ctx, parts):
 
 def _parts():
     return ([f"dump{i}of{N_DUMP_SHARDS}" for i in range(N_DUMP_SHARDS)] + ["views"]
-            + [f"parallel{i}of{N_PAR_SHARDS}" for i in range(N_PAR_SHARDS)])
+            + [f"parallel{i}of{N_PAR_SHARDS}" for i in range(N_PAR_SHARDS)] + ["histories", "modes", "threads"])
 
 
 def prepare(ctx):
